@@ -27,12 +27,20 @@ variable {α : Type}
 def Vec.of {n : Nat} (f : Fin n → α) : Vec α n := Vector.ofFn f
 def Mat.of {n m : Nat} (f : Fin n → Fin m → α) : Mat α n m := Vector.ofFn fun i => Vector.ofFn (f i)
 
-@[simp] theorem Vec.of_get {n : Nat} (f : Fin n → α) (i : Fin n) : (Vec.of f)[i] = f i := by
+@[simp] theorem Vec.of_getElem {n : Nat} (f : Fin n → α) (i : Nat) (h : i < n) :
+    (Vec.of f)[i] = f ⟨i, h⟩ := by
   simp [Vec.of]
 
-@[simp] theorem Mat.of_get {n m : Nat} (f : Fin n → Fin m → α) (i : Fin n) (j : Fin m) :
-    (Mat.of f)[i][j] = f i j := by
+@[simp] theorem Mat.of_getElem {n m : Nat} (f : Fin n → Fin m → α) (i j : Nat) (hi : i < n) (hj : j < m) :
+    (Mat.of f)[i][j] = f ⟨i, hi⟩ ⟨j, hj⟩ := by
   simp [Mat.of]
+
+theorem Vec.of_get {n : Nat} (f : Fin n → α) (i : Fin n) : (Vec.of f)[i] = f i := by
+  simp
+
+theorem Mat.of_get {n m : Nat} (f : Fin n → Fin m → α) (i : Fin n) (j : Fin m) :
+    (Mat.of f)[i][j] = f i j := by
+  simp
 
 /-! ### sums, products, borders -/
 
@@ -108,6 +116,54 @@ end solve
 
 /-- `anp.maximum(a, b)` for non-NaN arguments -/
 def maxOf [LT α] [DecidableLT α] (a b : α) : α := if a < b then b else a
+
+/-! ### `custom_op.py: AddJitterOp` (forward) -/
+
+section jitter
+variable [Zero α] [One α] [Add α] [Mul α] [Sub α] [Div α] [NatCast α] [LT α] [DecidableLT α]
+
+/-- what `spl.cholesky(A, lower=True)` decides: all pivots of the elimination (taken from the last
+row upwards, reading only the lower triangle) exceed `eps`.  `eps = 0` is positive definiteness in
+exact arithmetic; the driver also evaluates `eps = ±2⁻⁴⁰·scale` to classify the decision as forced
+(same answer) or free (LAPACK's answer on a numerically singular matrix is not modelled). -/
+def isPD (eps : α) : (n : Nat) → Mat α n n → Bool
+  | 0, _ => true
+  | n + 1, A =>
+    let d := A[Fin.last n][Fin.last n]
+    if eps < d then
+      isPD eps n (Mat.of fun i j => A[i.castSucc][j.castSucc] - A[Fin.last n][i.castSucc] * A[Fin.last n][j.castSucc] / d)
+    else false
+
+/-- `x + _get_constant_identity(x, c)` -/
+def addDiag {n : Nat} (x : Mat α n n) (c : α) : Mat α n n :=
+  Mat.of fun i j => if i = j then x[i][j] + c else x[i][j]
+
+structure JitterOut (α : Type) (n : Nat) where
+  sys : Mat α n n
+  jitter : α
+  /-- number of failed factorisations before the successful one -/
+  steps : Nat
+
+/-- the `while must_increase_jitter and jitter <= jitter_upperbound` loop; `k` counts the failed
+attempts so far (`jitter == 0.0` exactly when `k = 0`); `none` = the final `assert`. -/
+def jitterLoop {n : Nat} (eps : α) (x : Mat α n n) (sigsq init growth ub : α) : Nat → Nat → α → Option (JitterOut α n)
+  | 0, _, _ => none
+  | fuel + 1, k, jitter =>
+    if ub < jitter then none
+    else
+      let A := addDiag x (sigsq + jitter)
+      if isPD eps n A then some { sys := A, jitter := jitter, steps := k }
+      else jitterLoop eps x sigsq init growth ub fuel (k + 1) (if k = 0 then init else jitter * growth)
+
+/-- `AddJitterOp(flatten_and_concat(x, sigsq_init), initial_jitter_factor, jitter_growth)`;
+`ubFactor = JITTER_UPPERBOUND_FACTOR`; `eps` the pivot threshold of `isPD` (`0` = exact). -/
+def addJitter {n : Nat} (eps : α) (x : Mat α n n) (sigsq initFactor growth ubFactor : α) (fuel : Nat := 64) :
+    Option (JitterOut α n) :=
+  let meanDiag := sumFin (fun i : Fin n => x[i][i]) / (n : α)
+  let m := maxOf 1 meanDiag
+  jitterLoop eps x sigsq (initFactor * m) growth (ubFactor * m) fuel 0 0
+
+end jitter
 
 /-! ### `predict_posterior_marginals`, `sample_posterior_joint` (mean and covariance part) -/
 
